@@ -16,9 +16,12 @@ EXPL = ("P1 purity: an interprocedural effect/alias analysis (objects tagged by 
         "depth; shallow copies share inner levels) computes the write set of fit, find_best_fit, fit_vle, both objective functions, "
         "the Measurements extractors and _suggest_n_m; it must contain no object that exists before the call. P2 determinism: no "
         "random or clock source is reachable in the call graph from these functions and the optimiser's start vector and method "
-        "are constants or depend only on the orders. P3 best-of: the selection loops are matched structurally (accumulator pair "
-        "initialised to none / +inf or a constant, loss computed from the candidate and the caller's own data, strict '<' guarding "
-        "the update of both accumulators, accumulator returned, candidate grid range(n+1) x range(m+1)). P4: normal forms of "
+        "are constants or depend only on the orders. (read from the optimiser call as the evaluator sees it). P3 best-of: the inductive running-minimum argument is "
+        "checked on every evaluated path of find_best_fit (symbolic loops) and fit_vle (a literal list of methods, unrolled): each "
+        "comparison is loss-vs-running-bound, a winner replaces the bound by exactly its loss and the kept candidate by exactly the "
+        "candidate the loss was computed from, a loser changes neither, the loss is the sum over all of the caller's data, the bound "
+        "starts at +inf or a positive constant, the kept candidate is returned, candidates are fitted on the caller's data with the "
+        "caller's options over the full grid 0..n x 0..m. P4: normal forms of "
         "PervaporationFunction.__call__, __mul__ and from_array.")
 
 PURE = ["fit", "find_best_fit", "fit_vle", "_suggest_n_m", "get_initial_guess", "Measurements.from_diffusion_curve_first",
@@ -34,7 +37,7 @@ def objective_functions(repo):
 def run(ck):
     repo = ck.repo
     ck.explanation = EXPL
-    ck.technique = "effect/alias analysis with depth-indexed ownership tags; call-graph reachability; structural best-of pattern; normal forms"
+    ck.technique = "effect/alias analysis with depth-indexed ownership tags; call-graph reachability; running-minimum argument on evaluator paths; normal forms"
     ck.undecided("that the optimiser reaches a given optimum; equality of repeated fits as floating-point numbers beyond the absence of "
                  "nondeterminism sources")
     cg = CallGraph(repo)
